@@ -648,8 +648,8 @@ var alikeStrings = []string{"1", "2", "true", "false", "<nil>", "null", "1.5", "
 // whole-string versus partial matching (C12: match() is against the entire string, search() and =~ anywhere): top-level
 // alternation with and without own anchors, escaped trailing $ / leading ^, anchors in the middle, .* - and subjects that
 // match only as a prefix, suffix or in the middle (the same lists as ScriptGen!RxPats / RxSubs)
-var wholePatterns = []string{`^a|b$`, `^(a|b)$`, `^a$|^b$`, `^abc|xyz$`, `cost\$`, `^cost\$`, `\^a`, `a^b`, `a$b`, `.*`, `a.*`, `abc`, `^abc$`}
-var wholeStrings = []string{"abcZZ", "ZZxyz", "xyz", "ZZabcZZ", "cost$", "cost$x", "xcost$", "^a", "x^a", "a^b", "ZZ"}
+var wholePatterns = []string{`^a|b$`, `^(a|b)$`, `^a$|^b$`, `^abc|xyz$`, `cost\$`, `^cost\$`, `\^a`, `a^b`, `a$b`, `.*`, `a.*`, `abc`, `^abc$`, `a|ab`, `ab+?`, `(a|ab)(c|bcd)`}
+var wholeStrings = []string{"abcZZ", "ZZxyz", "xyz", "ZZabcZZ", "cost$", "cost$x", "xcost$", "^a", "x^a", "a^b", "ZZ", "abb", "abcd"}
 
 // patterns with k = 0..3 backslashes directly before a slash, in the middle, at the start and at the end of the pattern,
 // and a backslash pair at the end (C14: printing a regex constant between slashes), with the strings that tell them apart
